@@ -70,9 +70,9 @@ func valuesOracle(p *run.Part, check string, w *seqx.World, c seqx.Case) {
 }
 
 func c03Searches(p *run.Part, tier string) []*seqx.Search {
-	depth, pdepth := 5, 2
+	depth, pdepth := 6, 2
 	if tier == "thorough" {
-		depth, pdepth = 7, 3
+		depth, pdepth = 8, 3
 	}
 	dl := Budget(tier)
 	mk := func(cfg *seqx.Config, prefix string, d int) *seqx.Search {
